@@ -459,6 +459,8 @@ var c14Exprs = []struct{ Src, Want string }{
 	{`'lit'`, "lit"}, {`"lit"`, "lit"}, {`'btn-' + sx`, "btn-SX"}, {`sx + '-lg'`, "SX-lg"}, {`'btn-' + sx + '-lg'`, "btn-SX-lg"}, {`"a-" + sx + "-z"`, "a-SX-z"},
 	{`t ? 'yes' : 'no'`, "yes"}, {`f ? 'yes' : 'no'`, "no"}, {`'SX' == sx ? 'yes' : 'no'`, "yes"}, {`'p' == sx ? 'yes' : 'no'`, "no"},
 	{`'a' == 'b'`, ""}, {`'a' == 'a'`, "true"}, {`'a' != 'b'`, "true"}, {`cnt + 1`, "4"}, {`cnt - 3`, ""}, {`''`, ""}, {`'' + ''`, ""}, {`'x' + 'y'`, "xy"},
+	// values whose text reads like character references: written so that a parser reads the value back
+	{`'/s?a=1&amp;region=eu&amp;copy=1'`, "/s?a=1&region=eu&copy=1"}, {`'a&amp;amp;b'`, "a&amp;b"}, {`'&amp;lt;i&amp;gt;'`, "&lt;i&gt;"}, {`'x&amp;#39;y' + sx`, "x&#39;ySX"}, {`'&amp;notin; &amp;amp' + sx`, "&notin; &ampSX"},
 	{`sx == 'SX'`, "true"}, {`sx == 'nope'`, ""}, {`t && 'a' == 'a'`, "true"}, {`'it''s'`, "?"},
 }
 
